@@ -33,6 +33,18 @@ class GatewayMonitor:
     def key(self):
         return (self.model.key(), self.poisoned)
 
+    def clone(self):
+        other = GatewayMonitor.__new__(GatewayMonitor)
+        other.prop = self.prop
+        other.version = self.version
+        other.clauses = self.clauses
+        other.model = self.model.clone()
+        other.stats = collections.Counter()
+        other.transport = self.transport
+        other.poisoned = self.poisoned
+        other.last_key = self.last_key
+        return other
+
     # -- helpers -----------------------------------------------------------------------------
 
     def v(self, clause, kind, message, detail=""):
